@@ -8,9 +8,10 @@ import SquidModel.Properties.C13
 #print axioms SquidModel.C13.mark_injective_clean
 #print axioms SquidModel.C13.mark_injective_same_list
 #print axioms SquidModel.C13.hit_nominated_headers_match
+#print axioms SquidModel.C13.combinedByName_eq_fieldValue
 #print axioms SquidModel.C13.getByName_eq_fieldValue
-#print axioms SquidModel.C13.served_only_to_matching_requests_partial
-#print axioms SquidModel.C13.nonlist_first_line_counterexample
-#print axioms SquidModel.C13.nonlist_empty_absent_counterexample
+#print axioms SquidModel.C13.served_only_to_matching_requests
 #print axioms SquidModel.C13.nontoken_member_counterexample
-#print axioms SquidModel.C13.vt_element_ends_list_counterexample
+#print axioms SquidModel.C13.nonlist_field_lines_all_count
+#print axioms SquidModel.C13.nonlist_empty_differs_from_absent
+#print axioms SquidModel.C13.vt_element_does_not_end_list
